@@ -150,55 +150,78 @@ def coq_build(prop_vo, deps_timeout=1500, relevant_gens=None):
         return dict(ok=(rc == 0), log=log, failed=failed, gen_error=False, notes=notes)
 
 
-def coq_property(prop_id, relevant_gens=None):
-    """Recompile Properties/<id>.v unconditionally, collect theorem names, Print Assumptions."""
-    rel = 'Properties/%s.v' % prop_id
-    path = os.path.join(COQ, rel)
-    with open(path) as f:
+def property_files(prop_id):
+    """Properties/Cnn.v plus any Properties/Cnn_<part>.v (parts added by separate work packages)"""
+    files = ['Properties/%s.v' % prop_id]
+    files += sorted(os.path.relpath(f, COQ) for f in glob.glob(os.path.join(COQ, 'Properties', '%s_*.v' % prop_id)))
+    return files
+
+
+def coq_property_file(prop_id, rel, b):
+    """compile one property file; returns dict(theorems, discharged, ok, assumptions, closed, log, failed)"""
+    with open(os.path.join(COQ, rel)) as f:
         text = f.read()
     theorems = re.findall(r'^\s*Theorem\s+(\w+)', text, flags=re.M)
-    res = dict(theorems=theorems, obligations=len(theorems), discharged=0, assumptions=[], ok=False,
-               checker_cmd='cd %s && make -f Makefile.coq -k %so && coqc -Q . LV %s' % (COQ, rel, rel), log='')
-    b = coq_build(rel + 'o', relevant_gens=relevant_gens)
-    res['build_log'] = b['log'][-4000:]
-    if b.get('gen_error'):
-        res['failed'] = b['failed']
-        res['log'] = b['log']
-        return res
+    res = dict(theorems=theorems, discharged=0, ok=False, assumptions=[], closed=0, log='', failed=None)
     with Lock('coq'):
-        rc, o, e = sh('cd %s && timeout 600 coqc -Q . LV %s 2>&1' % (COQ, rel))
+        rc, o, e = sh('cd %s && timeout 900 coqc -Q . LV %s 2>&1' % (COQ, rel))
     res['log'] = (o + e)[-6000:]
     if rc == 0:
         res['ok'] = True
         res['discharged'] = len(theorems)
-        # Print Assumptions output: either "Closed under the global context" or "Axioms:\n name : type"
         ax = set()
         for m in re.finditer(r'^Axioms:\n((?:.+\n?)+?)(?=^\S|\Z)', o, flags=re.M):
             for line in m.group(1).split('\n'):
                 mm = re.match(r'^(\S+)\s*:', line)
                 if mm:
                     ax.add(mm.group(1))
-        for mm in re.finditer(r'^(\S+)\s*:\s', o, flags=re.M):
-            pass
         res['assumptions'] = sorted(ax)
         res['closed'] = o.count('Closed under the global context')
+        return res
+    m = re.search(r'File "[^"]*%s", line (\d+)' % re.escape(os.path.basename(rel)), o + e)
+    if b.get('failed') and not b['failed'].startswith('Properties/'):
+        # a lemma file the property rests on no longer compiles
+        res['failed'] = 'LV.' + b['failed'].replace('/', '.').replace('.v:', ' (line ') + ')'
+    elif m:
+        ln = int(m.group(1))
+        upto = '\n'.join(text.split('\n')[:ln - 1])
+        done = re.findall(r'^\s*Theorem\s+(\w+)', upto, flags=re.M)
+        res['discharged'] = max(0, len(done) - 1)       # the theorem containing the failing line is not discharged
+        res['failed'] = 'LV.%s.%s' % (rel[:-2].replace('/', '.'), done[-1] if done else '?')
     else:
-        # count theorems before the failing line (the file is checked top to bottom)
-        m = re.search(r'File "[^"]*%s", line (\d+)' % re.escape(os.path.basename(rel)), o + e)
-        if b.get('failed') and not b['failed'].startswith('Properties/'):
-            # a lemma file the property rests on no longer compiles
-            res['failed'] = 'LV.' + b['failed'].replace('/', '.').replace('.v:', ' (line ') + ')'
-            res['discharged'] = 0
-        elif m:
-            ln = int(m.group(1))
-            upto = '\n'.join(text.split('\n')[:ln - 1])
-            done = re.findall(r'^\s*Theorem\s+(\w+)', upto, flags=re.M)
-            # the theorem containing the failing line is not discharged
-            res['discharged'] = max(0, len(done) - 1) if re.search(r'Proof\.', text.split('\n')[ln - 1]) or True else len(done)
-            res['failed'] = 'LV.Properties.%s.%s' % (prop_id, done[-1] if done else '?')
-        else:
-            res['failed'] = ('LV.' + b['failed'].replace('/', '.').replace('.v:', ' line ')) if b.get('failed') else 'LV.Properties.%s' % prop_id
-            res['discharged'] = 0
+        res['failed'] = 'LV.' + rel[:-2].replace('/', '.')
+    return res
+
+
+def coq_property(prop_id, relevant_gens=None):
+    """Regenerate Gen/, rebuild what the property's files need, recompile each of them unconditionally,
+    collect theorem names and Print Assumptions."""
+    files = property_files(prop_id)
+    res = dict(theorems=[], obligations=0, discharged=0, assumptions=[], ok=True, closed=0, log='', files=files,
+               checker_cmd='cd %s && make -f Makefile.coq -k %s && ' % (COQ, ' '.join(f + 'o' for f in files)) +
+                           ' && '.join('coqc -Q . LV %s' % f for f in files))
+    for rel in files:
+        with open(os.path.join(COQ, rel)) as f:
+            res['theorems'] += re.findall(r'^\s*Theorem\s+(\w+)', f.read(), flags=re.M)
+    res['obligations'] = len(res['theorems'])
+    b = coq_build(' '.join(f + 'o' for f in files), relevant_gens=relevant_gens)
+    res['build_log'] = b['log'][-4000:]
+    if b.get('gen_error'):
+        res['ok'] = False
+        res['failed'] = b['failed']
+        res['log'] = b['log']
+        return res
+    ax = set()
+    for rel in files:
+        r = coq_property_file(prop_id, rel, b)
+        res['discharged'] += r['discharged']
+        res['closed'] += r['closed']
+        ax.update(r['assumptions'])
+        if not r['ok']:
+            res['ok'] = False
+            res.setdefault('failed', r['failed'])
+            res['log'] += r['log']
+    res['assumptions'] = sorted(ax)
     return res
 
 
@@ -557,7 +580,7 @@ def run_check(chk, argv):
         model_exe, mlog = build_model(chk.family)
     finally:
         coq_lock.__exit__()
-    closure = dep_closure('Properties/%s.v' % chk.id)
+    closure = sorted(set(x for f in property_files(chk.id) for x in dep_closure(f)))
     forb = forbidden_scan(closure)       # the files this property's theorems rest on
     cov['development_files'] = closure
     other = [h for h in forbidden_scan() if h not in forb]
@@ -576,8 +599,9 @@ def run_check(chk, argv):
     cov['trusted_base'] = tb
     if tier == 'thorough' and pr['ok'] and not os.environ.get('VERIF_NO_COQCHK'):
         with Lock('coqchk'):
-            rc, o, e = sh('cd %s && timeout 1500 coqchk -o -silent -Q . LV LV.Properties.%s 2>&1' % (COQ, chk.id))
-        cov['coqchk'] = dict(cmd='coqchk -o -silent -Q . LV LV.Properties.%s' % chk.id, exit=rc, tail=(o + e)[-1500:])
+            mods = ' '.join('LV.' + f[:-2].replace('/', '.') for f in property_files(chk.id))
+            rc, o, e = sh('cd %s && timeout 2400 coqchk -o -silent -Q . LV %s 2>&1' % (COQ, mods))
+        cov['coqchk'] = dict(cmd='coqchk -o -silent -Q . LV %s' % mods, exit=rc, tail=(o + e)[-1500:])
         tb.append('coqchk -o (independent checker) exit %d; axioms it lists: %s' % (rc, re.sub(r'\s+', ' ', (o + e)[-600:])))
         if rc not in (0,):
             pr['ok'] = False
